@@ -308,7 +308,8 @@ fn gen(seed: u64, family: &str, tier: Tier) -> Case {
         run_parallelism: if r.chance(0.03) { Some(0) } else if r.chance(0.2) { Some(r.range(1, 8) as usize) } else { None },
         simcfg,
         recorded: None,
-        params: json!({"kinds": kinds}),
+        // (one case in seven goes through the language-binding interface: TOML configuration, JSON strings)
+        params: if crate::sim::Rng::new(seed ^ crate::driver::fnv64("bindings")).chance(0.15) { json!({"kinds": kinds, "via_bindings": true}) } else { json!({"kinds": kinds}) },
     }
 }
 
@@ -373,6 +374,9 @@ fn judge(case: &Case, obs: &Obs) -> (Vec<Violation>, BTreeMap<String, u64>, bool
     let mut v: Vec<Violation> = vec![];
     let mut reach: BTreeMap<String, u64> = BTreeMap::new();
     let mut bump = |k: &str, n: u64| *reach.entry(k.to_string()).or_insert(0) += n;
+    if case.params.get("via_bindings").and_then(|x| x.as_bool()).unwrap_or(false) && case.params.get("cli").map_or(true, |c| !c.is_object()) {
+        bump("cases_through_the_binding_interface", 1);
+    }
     if let Some(kinds) = case.params.get("kinds").and_then(|k| k.as_array()) {
         for k in kinds {
             bump(&format!("kind:{}", k.as_str().unwrap_or("?")), 1);
@@ -448,18 +452,20 @@ fn judge(case: &Case, obs: &Obs) -> (Vec<Violation>, BTreeMap<String, u64>, bool
             let skip: Vec<u64> = batch.iter().enumerate().filter(|(i, _)| kinds.get(*i) == Some(&"degenerate-rates")).filter_map(|(_, q)| q.get("_qid").and_then(|x| x.as_u64())).collect();
             // (family clock: a query that the jumping clock stopped - in the batch, not when run alone - is answered
             // with a termination error; which limits that error names depends on the moment. Not compared.)
-            let mut skip_requests: Vec<Value> = vec![];
+            // (matched float-blind: under the binding interface the explored responses went through a text round
+            // trip in the harness, and serde_json's default parser may move a 17-digit float by one unit)
+            let mut skip_requests: Vec<String> = vec![];
             if case.family == "clock" {
                 for resp in run.iter() {
                     if resp.get("error").and_then(|e| e.as_str()).map_or(false, |e| e.contains("exceeded runtime limit")) {
                         if let Some(q) = resp.get("request") {
-                            skip_requests.push(q.clone());
+                            skip_requests.push(canon_blind(q));
                             bump("stopped_by_the_jumping_clock", 1);
                         }
                     }
                 }
             }
-            let keep = |r: &Value| !r.get("request").and_then(|q| q.get("_qid")).and_then(|x| x.as_u64()).map_or(false, |q| skip.contains(&q)) && !r.get("request").map_or(false, |q| skip_requests.contains(q));
+            let keep = |r: &Value| !r.get("request").and_then(|q| q.get("_qid")).and_then(|x| x.as_u64()).map_or(false, |q| skip.contains(&q)) && !r.get("request").map_or(false, |q| skip_requests.contains(&canon_blind(q)));
             bump("isolation_skipped_degenerate_rates", skip.len() as u64);
             let expected: Vec<Value> = refs.iter().flat_map(|x| x.clone().unwrap()).filter(|r| keep(r)).collect();
             let run: Vec<Value> = run.iter().filter(|r| keep(r)).cloned().collect();
